@@ -14,7 +14,7 @@ REGEXES = [r'[a-c]+', r'\d{2}', r'a|ab', r'[^/]*x', r'(a|b)c', 'é+', r'[a-z]+?(
            # context-sensitive at their start: a filter sees the rest of the path as a string of its own ("matched once at the cursor")
            r'^[a-c]+', r'\b\d+', r'(?<!/)[a-z]+', r'\B7+', r'\A\w+', r'(?<![a-z])x+', r'^\d+$']       # the last three are textually the masks of the int / float / path filters
 NAMES = ['x', 'y', 'z', 'id', 'name_1', '_p', 'Q', 'int', 're']
-LIT_SEGS = ['a', 'ab', 'abc', 'b', 'a1', 'é', 'a-b', 'a.b', 'c', 'end', '1', 'ba', 'a}', '}}b', 'x>', '}', 'a+b']
+LIT_SEGS = ['a', 'ab', 'abc', 'b', 'a1', 'é', 'a-b', 'a.b', 'c', 'end', '1', 'ba', 'a}', '}}b', 'x>', '}', 'a+b', 'Â£', '£', 'Ã©b']     # 'Â£' is what '£' looks like read as Latin-1
 
 
 # --------------------------------------------------------------------------
@@ -278,7 +278,7 @@ def instantiate(rng, ast):
     return ''.join(out)
 
 
-PATH_ALPHA = ['a', 'b', 'c', '1', '/', '-', '.', 'é', '\r', 'x', '2', 'l', ' ', '+', '}']
+PATH_ALPHA = ['a', 'b', 'c', '1', '/', '-', '.', 'é', '\r', 'x', '2', 'l', ' ', '+', '}', 'Â£', 'Ã©', '£']
 
 
 def mutate(rng, s):
